@@ -8,6 +8,8 @@ for n in sorted(os.listdir(os.path.join(here, "manifest.d"))):
     if n.endswith(".json"):
         f = json.load(open(os.path.join(here, "manifest.d", n)))
         frags[f["property_id"]] = f
+ready = set(open(os.path.join(here, "manifest.d", "READY")).read().split())
+frags = {k: v for k, v in frags.items() if k in ready}
 na_reasons = {}
 p = os.path.join(here, "manifest.d", "not_applicable.txt")
 if os.path.exists(p):
